@@ -51,6 +51,7 @@ type oeNode struct {
 	Msg    []oeTok  `json:"msg"`
 	Detail string   `json:"detail"` // "none", a name of oeDetails, or "j:<json text>"
 	Kids   []oeNode `json:"kids"`
+	Resp   bool     `json:"resp"` // http nodes: made from a response (NewHTTPError with a non-nil *http.Response and body)
 }
 
 type oeCase struct {
@@ -62,6 +63,10 @@ type oeCase struct {
 	// the ListPageSize of every client of the stack (0: the default of 1000)
 	NItems int `json:"nitems"`
 	Page   int `json:"page"`
+	// Origin: the far end is not a Funcs backend returning the built value but a NON-CONFORMING
+	// registry (a plain http handler) answering every request with the status, code, message and
+	// detail of the tree http(resp)[new]; level 0 is what a real ociclient makes of that answer.
+	Origin bool `json:"origin"`
 }
 
 var oeStd = []ociregistry.Error{
@@ -424,6 +429,18 @@ func oeBuild(n *oeNode) error {
 		if len(kids) > 0 {
 			inner = kids[0]
 		}
+		if n.Resp {
+			body := []byte(`{"errors":[{"code":"UPSTREAM","message":"as answered by the upstream registry"}]}`)
+			resp := &http.Response{
+				Status:     oeStatusText(n.Status),
+				StatusCode: n.Status,
+				Proto:      "HTTP/1.1", ProtoMajor: 1, ProtoMinor: 1,
+				Header:        http.Header{"Content-Type": {"application/json"}},
+				ContentLength: int64(len(body)),
+				Body:          io.NopCloser(bytes.NewReader(body)),
+			}
+			return ociregistry.NewHTTPError(inner, n.Status, resp, body)
+		}
 		return ociregistry.NewHTTPError(inner, n.Status, nil, nil)
 	}
 	panic("harness: unknown node kind " + n.K)
@@ -435,6 +452,7 @@ type oeObs struct {
 	IsErr   bool     `json:"isErr"`
 	Is      []string `json:"is"`
 	HTTP    bool     `json:"http"`
+	Resp    bool     `json:"resp"` // the HTTPError carries the response it was made from
 	Status  int      `json:"status"`
 	HasCode bool     `json:"hasCode"`
 	Code    string   `json:"code"`
@@ -457,6 +475,7 @@ func (v *oeVocab) observe(err error) oeObs {
 	var he ociregistry.HTTPError
 	if errors.As(err, &he) {
 		o.HTTP = true
+		o.Resp = he.Response() != nil
 		o.Status = he.StatusCode()
 	}
 	var oe ociregistry.Error
@@ -741,36 +760,73 @@ type oeStack struct {
 	cur     error
 	nitems  int
 	failAt  string // writer carriers: the method of the backend's BlobWriter that fails
+	answer  oeOriginAnswer // origin stacks: what the foreign registry answers
+	obs0    *oeObserver    // origin stacks: the client talking to the foreign registry (level 0)
+	tap0    *oeTap
 	reached []string
 	obs     []*oeObserver // obs[j-1]: level j (j hops above the backend)
 	taps    []*oeTap
 	servers []*httptest.Server
 }
 
-func oeNewStack(hops, page int) (*oeStack, error) {
+// oeOriginAnswer is what the non-conforming origin registry answers to every request.
+type oeOriginAnswer struct {
+	status int
+	body   []byte
+}
+
+func oeNewStack(hops, page int, origin bool) (*oeStack, error) {
 	st := &oeStack{}
+	quiet := log.New(io.Discard, "", 0)
+	newClient := func(srv *httptest.Server) (*oeObserver, *oeTap, error) {
+		u, _ := url.Parse(srv.URL)
+		tap := &oeTap{rt: &http.Transport{MaxIdleConnsPerHost: 4}}
+		c, err := ociclient.New(u.Host, &ociclient.Options{Insecure: true, Transport: tap, ListPageSize: page})
+		if err != nil {
+			return nil, nil, err
+		}
+		return &oeObserver{Interface: c}, tap, nil
+	}
+	if origin {
+		srv := httptest.NewUnstartedServer(http.HandlerFunc(func(w http.ResponseWriter, req *http.Request) {
+			st.reached = append(st.reached, "origin")
+			io.Copy(io.Discard, req.Body)
+			w.Header().Set("Content-Type", "application/json")
+			w.WriteHeader(st.answer.status)
+			w.Write(st.answer.body)
+		}))
+		srv.Config.ErrorLog = quiet
+		srv.Start()
+		st.servers = append(st.servers, srv)
+		ob, tap, err := newClient(srv)
+		if err != nil {
+			return nil, err
+		}
+		st.obs0, st.tap0 = ob, tap
+		return st, st.addHops(ob, hops, newClient, quiet)
+	}
 	var below ociregistry.Interface = oeBackend(func() int { return st.nitems }, func() string { return st.failAt }, func(method string) error {
 		st.reached = append(st.reached, method)
 		return st.cur
 	})
-	quiet := log.New(io.Discard, "", 0)
+	return st, st.addHops(below, hops, newClient, quiet)
+}
+
+func (st *oeStack) addHops(below ociregistry.Interface, hops int, newClient func(*httptest.Server) (*oeObserver, *oeTap, error), quiet *log.Logger) error {
 	for j := 1; j <= hops; j++ {
 		srv := httptest.NewUnstartedServer(ociserver.New(below, nil))
 		srv.Config.ErrorLog = quiet
 		srv.Start()
 		st.servers = append(st.servers, srv)
-		u, _ := url.Parse(srv.URL)
-		tap := &oeTap{rt: &http.Transport{MaxIdleConnsPerHost: 4}}
-		c, err := ociclient.New(u.Host, &ociclient.Options{Insecure: true, Transport: tap, ListPageSize: page})
+		ob, tap, err := newClient(srv)
 		if err != nil {
-			return nil, err
+			return err
 		}
-		ob := &oeObserver{Interface: c}
 		st.obs = append(st.obs, ob)
 		st.taps = append(st.taps, tap)
 		below = ob
 	}
-	return st, nil
+	return nil
 }
 
 func (st *oeStack) close() {
@@ -891,10 +947,10 @@ func oeCall(ctx context.Context, top ociregistry.Interface, carrier string, hops
 }
 
 func (st *oeStack) run(c *oeCase) (e ev) {
-	e = ev{"op": "case", "id": c.ID, "carrier": c.Carrier, "hops": c.Hops, "err": c.Err, "nitems": c.NItems, "page": c.Page}
+	e = ev{"op": "case", "id": c.ID, "carrier": c.Carrier, "hops": c.Hops, "err": c.Err, "nitems": c.NItems, "page": c.Page, "origin": c.Origin}
 	defer func() {
 		if r := recover(); r != nil {
-			e = ev{"op": "panic", "id": c.ID, "carrier": c.Carrier, "hops": c.Hops, "err": c.Err, "nitems": c.NItems, "page": c.Page, "panic": fmt.Sprint(r)}
+			e = ev{"op": "panic", "id": c.ID, "carrier": c.Carrier, "hops": c.Hops, "err": c.Err, "nitems": c.NItems, "page": c.Page, "origin": c.Origin, "panic": fmt.Sprint(r)}
 		}
 	}()
 	v := oeNewVocab()
@@ -907,8 +963,27 @@ func (st *oeStack) run(c *oeCase) (e ev) {
 		st.obs[j].got, st.obs[j].seen, st.obs[j].items = nil, false, nil
 		st.taps[j].reset()
 	}
-	oeCall(context.Background(), st.obs[c.Hops-1], c.Carrier, c.Hops)
-	lv := []oeObs{v.observe(st.cur)}
+	idDepth := c.Hops
+	if c.Origin {
+		// the foreign registry answers with the tree's status, code, message and detail
+		in := &c.Err.Kids[0]
+		we := map[string]any{"code": in.Code, "message": oeRender(in.Msg)}
+		if d := oeDetailBytes(in.Detail); d != nil {
+			we["detail"] = d
+		}
+		body, _ := json.Marshal(map[string]any{"errors": []any{we}})
+		st.answer = oeOriginAnswer{status: c.Err.Status, body: body}
+		st.obs0.got, st.obs0.seen, st.obs0.items = nil, false, nil
+		st.tap0.reset()
+		idDepth++
+	}
+	oeCall(context.Background(), st.obs[c.Hops-1], c.Carrier, idDepth)
+	lv := []oeObs{}
+	if c.Origin {
+		lv = append(lv, v.observe(st.obs0.got)) // level 0: what ociclient made of the foreign answer
+	} else {
+		lv = append(lv, v.observe(st.cur))
+	}
 	wire := []oeWire{}
 	for j := 0; j < c.Hops; j++ {
 		o := v.observe(st.obs[j].got)
@@ -1083,7 +1158,7 @@ func oeRandTree(r *rand.Rand, depth int) oeNode {
 	case x < 3:
 		return leaf()
 	case x < 6:
-		n := oeNode{K: "http", Status: oeRandStatus(r), Msg: []oeTok{}, Detail: "none", Kids: []oeNode{}}
+		n := oeNode{K: "http", Status: oeRandStatus(r), Msg: []oeTok{}, Detail: "none", Kids: []oeNode{}, Resp: r.Intn(3) == 0}
 		if r.Intn(8) != 0 {
 			n.Kids = append(n.Kids, oeRandTree(r, depth-1))
 		}
@@ -1150,7 +1225,7 @@ func oeCmd(args []string) error {
 	enc := json.NewEncoder(bw)
 	enc.SetEscapeHTML(false)
 	enc.Encode(oeHeader())
-	stacks := map[[2]int]*oeStack{}
+	stacks := map[[3]int]*oeStack{}
 	defer func() {
 		for _, s := range stacks {
 			s.close()
@@ -1164,11 +1239,17 @@ func oeCmd(args []string) error {
 		if c.NItems < 0 || c.NItems > len(oeItemNames) || c.Page < 0 {
 			return fmt.Errorf("case %d: bad nitems/page %d/%d", c.ID, c.NItems, c.Page)
 		}
-		key := [2]int{c.Hops, c.Page}
+		if c.Origin && !(c.Err.K == "http" && c.Err.Resp && len(c.Err.Kids) == 1 && c.Err.Kids[0].K == "new" && c.Err.Status >= 400 && c.Err.Status <= 599) {
+			return fmt.Errorf("case %d: an origin case needs a tree http(resp)[new]", c.ID)
+		}
+		key := [3]int{c.Hops, c.Page, 0}
+		if c.Origin {
+			key[2] = 1
+		}
 		st := stacks[key]
 		if st == nil {
 			var err error
-			if st, err = oeNewStack(c.Hops, c.Page); err != nil {
+			if st, err = oeNewStack(c.Hops, c.Page, c.Origin); err != nil {
 				return err
 			}
 			stacks[key] = st
@@ -1222,7 +1303,19 @@ func oeCmd(args []string) error {
 			// stay below the client's 8 KiB limit on error bodies (beyond it the code is documented to be lost)
 			c.Err = oeRandTree(rnd, 1+rnd.Intn(*depth))
 		}
-		if c.Carrier == "Repositories" || c.Carrier == "Tags" || c.Carrier == "Referrers" {
+		if _, writer := oeWriterFail[c.Carrier]; !writer && !strings.HasPrefix(c.Carrier, "Resolve") && rnd.Intn(12) == 0 {
+			// a non-conforming origin registry answering (random status, random code, ...)
+			m := oeRandMsg(rnd, 1)
+			if rnd.Intn(6) == 0 {
+				m = []oeTok{{"E", ""}}
+			}
+			in := oeNode{K: "new", Code: oeRandCode(rnd), Msg: m, Detail: oeRandDetail(rnd), Kids: []oeNode{}}
+			c.Err = oeNode{K: "http", Status: oeRandStatus(rnd), Msg: []oeTok{}, Detail: "none", Kids: []oeNode{in}, Resp: true}
+			if oeBodyBound(&c.Err) > 7000 {
+				c.Err.Kids[0].Msg, c.Err.Kids[0].Detail = []oeTok{{"B", "b1"}}, "d1"
+			}
+			c.Origin = true
+		} else if c.Carrier == "Repositories" || c.Carrier == "Tags" || c.Carrier == "Referrers" {
 			c.NItems = rnd.Intn(4)
 			c.Page = [...]int{0, 0, 1, 2, 3}[rnd.Intn(5)]
 		}
